@@ -1,6 +1,7 @@
 import NdnVerif.Driver.Common
 import NdnVerif.C14.Spec
 import NdnVerif.C14.Table
+import NdnVerif.C14.XXHash
 open Ndn Ndn.Driver Ndn.C14
 
 /-- spec state: hashes and encodings seen in this history (implementation outputs only) -/
@@ -136,12 +137,19 @@ def stepC14 (s : S14) (op : String) (got : String) : StepResult S14 :=
         spec := crashSpec "ComponentFromStr" got }
     | none => bad s
   | ["h", a] =>
-    -- hash values are not compared with a model (any hash function is fine); only the laws are checked
+    -- the hash VALUE is compared with XXH64 over the model's hash input (ties the framing: 8-byte type,
+    -- 8-byte value length, value); the laws are evaluated on the implementation's outputs
     let prev := s.hashes.find? (fun p => p.1 == a)
-    { st := { s with hashes := (a, got) :: s.hashes }, expected := none, cov := ["hash"],
+    let clash := s.hashes.find? (fun p => p.1 != a && p.2 == got)
+    { st := { s with hashes := (a, got) :: s.hashes },
+      expected := (Name.ofText a).map fun x => hexU64 (nameHash x), cov := ["hash"],
       spec := crashSpec "Hash" got ++
         (match prev with
          | some p => if p.2 != got then [⟨"hash-of-equal-names", "h", s!"Hash({a}) gave {p.2} and then {got}"⟩] else []
+         | none => []) ++
+        (match clash with
+         | some p => if !isCrash got then
+             [⟨"hash-agrees-with-equality", "collision", s!"the names {p.1} and {a} are not Equal but hash to the same value {got}: every table keyed on the hash conflates them"⟩] else []
          | none => []) }
   | ["hc", _a, _b, _c] =>
     -- concurrent hashing of private copies: the hash of a name is a function of the name alone
@@ -149,13 +157,33 @@ def stepC14 (s : S14) (op : String) (got : String) : StepResult S14 :=
       spec := crashSpec "Hash (concurrent)" got ++
         (if !isCrash got && got != "stable" then
           [⟨"hash-of-equal-names", "hc", s!"hashing the same names from several goroutines gave different values than sequentially: {got}"⟩] else []) }
-  | ["ph", _a] =>
+  | ["ph", a] =>
     -- output "<PrefixHash() list> <Hash() of each prefix>" : must agree position by position
     let parts := got.splitOn " "
-    { st := s, expected := none, cov := ["prefix-hash"],
+    let want := (Name.ofText a).map fun x =>
+      let l := ",".intercalate ((List.range (x.length + 1)).map fun i => hexU64 (nameHash (x.take i)))
+      l ++ " " ++ l
+    { st := s, expected := want, cov := ["prefix-hash"],
       spec := crashSpec "PrefixHash" got ++
         (if !isCrash got && parts.getD 0 "x" != parts.getD 1 "y" then
           [⟨"prefix-hash", "ph", s!"PrefixHash differs from the hashes of the prefixes: {got}"⟩] else []) }
+  | "tabr" :: kind :: toks =>
+    -- a name-keyed table (trie: engine NameTrie; mem: object MemoryStore; pit: the forwarder's PIT tree) under
+    -- insertions (+name), removals (-name) and lookups (?name): one observation character per operation
+    let ops := toks.mapM fun t =>
+      match Name.ofText ((t.drop 1).toString) with
+      | some n => if t.startsWith "+" then some (TOp.ins n) else if t.startsWith "-" then some (TOp.rem n)
+                  else if t.startsWith "?" then some (TOp.has n) else none
+      | none => none
+    match ops with
+    | some ops =>
+      let exp := String.ofList (tabrRun compKey [] ops)
+      let want := String.ofList (tabrRun id [] ops)
+      { st := s, expected := some exp, cov := ["tabr-" ++ kind], nontrivial := ops.length ≥ 3,
+        spec := crashSpec ("table " ++ kind) got ++
+          (if !isCrash got && got != want then
+            [⟨"table-keying", "tabr-" ++ kind, s!"a {kind} table under {toks} answered {got}; by name equality it must answer {want}"⟩] else []) }
+    | none => bad s
   | "tab" :: kind :: q :: ns =>
     -- a table keyed on names (kind = trie: engine NameTrie; mem: object MemoryStore): insert the names in
     -- order, report for each the index of the entry the table finds for it (its class), and for the trie the
